@@ -6,7 +6,7 @@ the tables are read (the concrete part is what the Go side replays).
   ov <level> … | <n> <vkpos> <nv> <aff rows> <diff rows>
       → r=ok final=<pos> greater=<pos.pos> rounds=<k> laws=<0|1> okset=<bits>
   sg <level> … | <simple> <cur rank|-> <curId|-> <id:rank:diff:mat,…>
-      → r=keep|update:<id>|panic okset=<bits over ids> cls=<known class|->
+      → r=keep|update:<id> okset=<bits over ids> cls=-
 -/
 import Scalibr.Base.Wire
 import Scalibr.Spec.Upgrade
@@ -93,11 +93,10 @@ def handleSg (level : Nat) (tb : List String) : String :=
       let okset := vs.map fun v => match curR with
         | some r => decide (r < v.rank) && allows level v.diff && level != lNone
         | none => false
-      let (r, cls) : String × String := match res with
-        | .keep => ("keep", "-")
-        | .panic => ("panic", "C11/maven-range-no-match-panic")
-        | .update v => (s!"update:{v.id}", if some v.rank = curR then "C11/maven-equal-version-update" else "-")
-      s!"r={r} okset={showBits okset} cls={cls}"
+      let r : String := match res with
+        | .keep => "keep"
+        | .update v => s!"update:{v.id}"
+      s!"r={r} okset={showBits okset} cls=-"
     | _, _ => "bad-op"
   | _ => "bad-op"
 
